@@ -386,6 +386,17 @@ def run(tier, only=None):
             payload['native_dev'], payload['native_release'] = (o or (None, None))
             confirmed = confirm(vv, o)
             ck.violation(key, '%s inputs=%s native=%r' % (vv['what'], vv['inputs'], o), payload, confirmed=confirmed)
+    if not only or 'b' == only or '_' in (only or ''):
+        try:
+            from . import c12b
+            nt, nm, nqb = c12b.check(ck, corpus, None if only == 'b' else only)
+            ntypes += nt
+            nmethods += nm
+            total_q += nqb
+            ck.assume('synthesised message-local flag structs (<Container>_<Flag>): clear_x / set_x / new_x / empty / is_empty are executed with the raw value symbolic and every Option member None; set_x arguments are fresh symbolic values where their type is plain data')
+        except Exception:
+            import traceback
+            ck.inconclusive.append('synthesised flag structs: %s' % traceback.format_exc()[-400:])
     ck.assume('std models reached: ' + ', '.join(sorted(n for n in fn_names if n.startswith('std::') or n.startswith('core::'))[:40]))
     ck.assume('wowm reading: vf/wowm.py (independent parser); enumerator <-> accessor matched by case/underscore-insensitive name')
     ck.assume('conversions: same width = bit for bit; any other width must preserve the numeric value or be rejected (Err carries the argument)')
